@@ -456,7 +456,7 @@ func Run(c *core.Ctx, pool *gjs.Pool) {
 	}
 
 	// 1. the model: enumerate, check the definitions, emit predictions
-	ncodes := c.Pick(90, 1400)
+	ncodes := c.Pick(90, 600)
 	if v := os.Getenv("C10_N"); v != "" { // development aid
 		fmt.Sscanf(v, "%d", &ncodes)
 	}
